@@ -4,6 +4,7 @@ import json
 import os
 
 import drivers
+import mc
 import tlc
 from record import Session
 from replay import Replayer
@@ -57,8 +58,21 @@ RATE_CLASSES = ["kind=PL", "kind=BTF", "kind=BTP", "kind=TMF", "kind=TMP", "ties
                 "floor", "clamp", "enc=ranks", "enc=scores", "enc=none", "tau_call", "limit_call", "n=2", "n=3", "n=8"]
 
 
+ALL_KINDS = ["PL", "BTF", "BTP", "TMF", "TMP"]
+SETTINGS_QUICK = ["default", "tau0_call", "limit_call", "gamma_probe"]
+SETTINGS_ALL = ["default", "tau0_call", "tau0_model", "tau_big", "limit_model", "limit_call", "limit_off_call", "kappa_big",
+                "gamma_one", "gamma_big", "gamma_probe", "gamma_zero"]
+
+
 def plan_C01(run):
-    n = q(run, 2500, 60000)
+    # spec -> code: every game over the cast x every weak order x option settings, enumerated by TLC, replayed into the library
+    if run.tier == "quick":
+        mc.lattice(run, "cast4-n3", ALL_KINDS, ["default"], 4, 3)
+        mc.lattice(run, "cast4-n2-options", ALL_KINDS, ["tau0_call", "limit_call", "gamma_probe", "gamma_big"], 4, 2)
+    else:
+        mc.lattice(run, "cast4-n4", ALL_KINDS, SETTINGS_ALL, 4, 4)
+        mc.lattice(run, "cast5-n3", ALL_KINDS, ["default", "gamma_big", "limit_call"], 5, 3)
+    n = q(run, 1500, 60000)
     campaign(run, "rate-campaign", {"C01"}, lambda s, r: drivers.rate_campaign(s, r, n))
     run.require_classes(RATE_CLASSES + ["gamma=probe", "gamma=big", "gamma=one", "gamma=zero"], "rate-campaign")
     return {"rule": "random rate() calls over the full numeric domain (2-8 teams x 1-8 players, five models, "
@@ -69,7 +83,14 @@ def plan_C01(run):
 
 
 def plan_C02(run):
-    n = q(run, 2500, 40000)
+    # spec -> code: all shapes over the cast x all weak orders; and all rank/score vectors over mixed values
+    if run.tier == "quick":
+        mc.lattice(run, "cast4-n3", ALL_KINDS, ["limit_call"], 4, 3)
+        mc.lattice(run, "encodings-n2", ALL_KINDS, ["default"], 3, 2, style="encodings")
+    else:
+        mc.lattice(run, "cast4-n4", ALL_KINDS, ["default", "limit_call"], 4, 4)
+        mc.lattice(run, "encodings-n3", ALL_KINDS, ["default", "limit_model"], 3, 3, style="encodings")
+    n = q(run, 1500, 40000)
     campaign(run, "rate-campaign", {"C02"}, lambda s, r: drivers.rate_campaign(s, r, n))
     run.require_classes(RATE_CLASSES, "rate-campaign")
     return {"rule": "random rate() calls; every result checked position by position (shape, id, name, class, "
@@ -78,6 +99,8 @@ def plan_C02(run):
 
 def plan_C03(run):
     n = q(run, 300, 6000)
+    # every rank / score vector over mixed values, enumerated by TLC and replayed (C01's comparison then ties each to the rule)
+    mc.lattice(run, "encodings", ALL_KINDS, ["default"], 3, q(run, 2, 3), style="encodings", want={"C03"}, group_orders="C03")
     campaign(run, "order-groups", {"C03"}, lambda s, r: drivers.order_groups(s, r, n))
     run.require_classes(["group:C03:order", "kind=PL", "kind=BTF", "kind=BTP", "kind=TMF", "kind=TMP", "ties", "enc=scores", "enc=ranks"], "order-groups")
     return {"rule": "one game rated under 8 differently written but order-equivalent outcome arguments (ints, floats, mixed, "
@@ -96,7 +119,8 @@ def plan_C04(run):
 
 
 def plan_C05(run):
-    n = q(run, 1500, 30000)
+    mc.lattice(run, "cast4", ALL_KINDS, q(run, ["default"], ["default", "tau_big", "kappa_big", "gamma_one"]), 4, q(run, 3, 4))
+    n = q(run, 1000, 30000)
     campaign(run, "rate-campaign", {"C05"}, lambda s, r: drivers.rate_campaign(s, r, n))
     run.require_classes(RATE_CLASSES, "rate-campaign")
     m = q(run, 250, 5000)
@@ -107,6 +131,7 @@ def plan_C05(run):
 
 
 def plan_C06(run):
+    mc.lattice(run, "cast4", ALL_KINDS, q(run, ["tau0_call", "limit_call", "tau_big", "gamma_zero"], SETTINGS_ALL), 4, q(run, 2, 3))
     n = q(run, 1500, 30000)
     campaign(run, "rate-campaign", {"C06"}, lambda s, r: drivers.rate_campaign(s, r, n))
     run.require_classes(RATE_CLASSES, "rate-campaign")
@@ -117,7 +142,8 @@ def plan_C06(run):
 
 
 def plan_C07(run):
-    n = q(run, 2500, 40000)
+    mc.lattice(run, "cast4", ALL_KINDS, q(run, ["default"], ["default", "tau_big", "kappa_big", "gamma_probe"]), 4, q(run, 3, 4))
+    n = q(run, 1500, 40000)
     campaign(run, "rate-campaign", {"C07"}, lambda s, r: drivers.rate_campaign(s, r, n))
     run.require_classes(RATE_CLASSES, "rate-campaign")
     return {"rule": "random rate() calls; precision-weighted zero sum of observed mu changes"}
@@ -177,7 +203,9 @@ def plan_C12(run):
 
 
 def plan_C13(run):
-    n = q(run, 6, 120)
+    # spec -> code: the grammar of malformed arguments enumerated by TLC and replayed into the five classes
+    mc.grammar(run, "grammar", ALL_KINDS, q(run, ["1-1", "2-1"], ["1-1", "2-1", "1-1-2"]))
+    n = q(run, 4, 120)
     campaign(run, "malformed-grammar", {"C13"}, lambda s, r: drivers.malformed_campaign(s, r, n))
     run.require_classes(["malformed", "raise:TypeError", "raise:ValueError", "ok", "op=win", "op=draw", "op=rank"], "malformed-grammar")
     m = q(run, 600, 10000)
@@ -267,6 +295,8 @@ def plan_C14(run):
 
 def plan_C15(run):
     n = q(run, 300, 6000)
+    # every option setting (model-level and per-call) on the lattice: the effective options of Sem.tla against the code
+    mc.lattice(run, "options", ALL_KINDS, ["tau0_call", "tau0_model", "limit_call", "limit_model", "limit_off_call"], 4, 2, want={"C15", "C01"})
     campaign(run, "effopts-groups", {"C15"}, lambda s, r: drivers.effopts_groups(s, r, n))
     run.require_classes(["group:C15:effopts", "clamp", "limit", "kind=PL", "kind=BTF", "kind=BTP", "kind=TMF", "kind=TMP"], "effopts-groups")
     return {"rule": "M(tau=t, limit_sigma=b).rate(g) against M(other).rate(g, tau=t, limit_sigma=b), each option alone, and explicit None; "
